@@ -50,9 +50,12 @@ CHECKS = {
     ),
     'C11': dict(
         text='decode() executed symbolically with a recording printer and a recording destination on arbitrary instruction bytes: byte columns reproduce the input, each column <= 4 bytes, '
-             'one instruction line per delivered operation, printed numbers/colours are the delivered ones; Decode and Disassemble return the same error on fully arbitrary input.',
+             'one instruction line per delivered operation, printed numbers/colours are the delivered ones; the text Disassemble itself returns (bytes.Buffer modelled with content, '
+             'one earlier Disassemble call in the same process allowed, sync.Pool handing back pooled objects) is parsed back: its hex fields reproduce the input byte for byte and its line count matches the delivered operations; '
+             'suggested-palette lines print exactly the RGBA values delivered through Reset; Decode and Disassemble return the same error on fully arbitrary input.',
         note='Bounds: L arbitrary instruction bytes after an empty metadata section (quick 5, thorough 7); fully arbitrary inputs of up to W bytes (quick 7, thorough 10) for the verdict. '
-             'fmt rendering of values to text is a trusted stub (values are compared, not text); arc flag/angle operand lines are not compared.',
+             'Text harness: L = 4 (thorough 6) after an optional earlier call on P = 1 (thorough 2) arbitrary bytes; palette listing: 1..2 (thorough 1..4) colours in every form. '
+             'fmt rendering of values to text is a trusted stub (values are compared, not text; Fprintf appends its format string verbatim).',
     ),
     'C13': dict(
         text='Metadata sections as arbitrary bytes (count, lengths, MIDs, contents) against the reference parser; palette chunks of every format with arbitrary colour bytes and any '
@@ -99,10 +102,11 @@ CHECKS = {
     'C02': dict(
         text='Bounded symbolic execution of the real decoder on fully symbolic byte windows: every index, slice bound, nil dereference, '
              'division and explicit panic on every feasible path is an obligation, the input slice is a read-only region, and the '
-             'structural claims (first call Reset, >=1 byte per delivered call, prefix-closedness, DecodeError) are asserted per path. '
+             'structural claims (first call Reset, >=1 byte per delivered call, prefix-closedness, DecodeError) are asserted per path; '
+             'an arc with operands of any magnitude up to 2^100 causes at most four rasteriser calls (exact-real reading, trigonometry by range contracts). '
              'Right level: safety of a parser over all inputs up to a length bound is exactly what bounded model checking decides.',
         note='Bounds: windows/streams of the lengths stated in evidence.bounds; longer inputs only through the per-step lemma. '
-             'Trusted: executor, solvers; fmt and bytes.Buffer are stubs (no-op recorders); rasteriser is a recording stub.',
+             'Trusted: executor, solvers; fmt is a stub, bytes.Buffer a content model; rasteriser is a recording stub.',
     ),
     'C03': dict(
         text='Differential symbolic execution: the real decoder and an independent reference parser written from spec/iconvg-spec-v0.md '
